@@ -84,7 +84,16 @@ Definition check_parser_unit (args : list sexp) : option (list sexp) :=
   | _ => None
   end.
 
+(* (NB class): an honest selection for which the library's prover built no presentation at all - the property at hand is
+   not violated by that, but model and implementation no longer agree on the case (reported without a failing input) *)
+Definition check_not_built (args : list sexp) : option (list sexp) :=
+  match args with
+  | [A "NB"; cls] => match dec_str cls with Some c => Some [A "rel"; A "honest-presentation-not-built"] | None => None end
+  | _ => None
+  end.
+
 Definition check_V (p : string) (args : list sexp) : list sexp :=
+  match check_not_built args with Some v => v | None =>
   match check_parser_unit args with Some v => v | None =>
   match check_interval_unit args with Some v => v | None =>
   match args with
@@ -104,4 +113,4 @@ Definition check_V (p : string) (args : list sexp) : list sexp :=
       | _, _, _ => [A "decode-error"]
       end
   | _ => [A "decode-error"]
-  end end end.
+  end end end end.
